@@ -1157,6 +1157,22 @@ def _cycle(pe, st, args, t):
     return ("iter", tuple(it[1][it[2]:]), 0, ("cycle",))
 
 
+@pmodel("std::iter::Iterator::min_by_key", "std::iter::Iterator::max_by_key")
+def _min_by_key(pe, st, args, t):
+    it = _as_iter(pe, st, args[0])
+    if it is None or (len(it) > 3 and it[3] == ("cycle",)):
+        raise _Abort("top", "min_by_key() of an unknown iterator")
+    is_max = (t.get("callee") or t.get("declared") or "").endswith("max_by_key")
+    best = None
+    for x in it[1][it[2]:]:
+        k = pe.invoke_closure(st, args[1], [("ref", ("const", x))])
+        if k == TOP or k[0] != "int":
+            raise _Abort("top", "min_by_key(): key is not a known integer")
+        if best is None or (k[2] >= best[0] if is_max else k[2] < best[0]):
+            best = (k[2], x)
+    return NONE if best is None else some(best[1])
+
+
 @pmodel("std::iter::Iterator::fold", "<std::slice::Iter<'a, T> as std::iter::Iterator>::fold")
 def _fold(pe, st, args, t):
     it = _as_iter(pe, st, args[0])
@@ -1261,6 +1277,8 @@ def _slice_len(pe, st, args, t):
 @pmodel("std::array::<impl std::clone::Clone for [T; N]>::clone")
 def _array_clone(pe, st, args, t):
     v = _deref(pe, st, args[0])
+    if v != TOP and v[0] == "tok":
+        return v  # an opaque value: its clone is the same value
     if v != TOP and v[0] == "harr":
         return pe.heap.clone(v)
     if v != TOP and v[0] == "array":
